@@ -356,7 +356,6 @@ int main(int argc, char **argv)
 		if (cfgs[i].fine) vx_count("scenarios_fine_grained_placement", 1);
 		if (cfgs[i].threads) vx_count("scenarios_free_threads", 1); else vx_count("scenarios_nested_interrupts", 1);
 		vx_count("states", st.states); vx_count("transitions", st.steps + st.interrupts_injected + st.atomic_ops); vx_count("traces", st.executions);
-		vx_count("distinct", st.states);
 		vx_count("executions", st.executions); vx_count("executions_completed", st.completed); vx_count("executions_pruned_at_visited_state", st.pruned);
 		vx_count("atomic_operations_executed", st.atomic_ops); vx_count("plain_accesses_checked", st.plain_accesses);
 		vx_count("interrupts_injected", st.interrupts_injected); vx_count("placement_points_at_plain_accesses", st.fine_points); vx_count("preemptions", st.preemptions); vx_count("spin_blocks", st.spin_blocks);
